@@ -19,9 +19,10 @@ RULE = ("seeded composition histories (<= 8 composition calls) on a generated pa
         "spliced node whose function depends on a parent signal")
 PROBES = ["fill_after_second_add_blackbox", "same_child_twice", "nested_bb_carried", "child_fed_by_child",
           "rejected_call", "strip_with_ignore", "strip_plain", "fill_ok", "add_subcircuit_ok", "add_blackbox_ok",
-          "unattached_child_input"]
+          "unattached_child_input", "feedthrough_child"]
 ASSUMPTIONS = ["<= 10 free signals at any time; histories creating a combinational loop are cut at that point",
-               "children have no node that is both input and output"]
+               "a child node that is both input and output (feed-through pin) is attached as an INPUT when named in the "
+               "connection map, as the statement says for sc's inputs"]
 TIME_UNIT = "API calls"
 
 
@@ -96,6 +97,8 @@ def ref_add_subcircuit(R, child, name, conns):
 def ref_add_blackbox(R, bbt, inst, conns):
     tname, ins, outs = bbt
     R = copy.deepcopy(R)
+    if set(ins) & set(outs):
+        raise Invalid("pin listed as input and output")
     if inst in R["bbs"]:
         raise Invalid("instance exists")
     for p in ins + outs:
@@ -188,15 +191,20 @@ def ref_strip(R, ignore):
 
 def gen_child(rng, idx, allow_nested):
     net = G.gen_net(rng, n_inputs=(1, 3), n_gates=(1, 5), types=G.swarm_types(rng), max_arity=3, constants=0.15,
-                    bbs=1 if (allow_nested and rng.random() < 0.3) else 0, input_outputs=0.0, min_outputs=1,
+                    bbs=(1, 2) if (allow_nested and rng.random() < 0.35) else 0, input_outputs=0.0, min_outputs=1,
                     name_style="plain", name=f"child{idx}", bb_types=[("leaf", ["p"], ["z"])])
-    # outputs must be gates only (no input that is an output)
+    # outputs are gates (a feed-through pin may be added below)
     for n, v in net["nodes"].items():
         if v[0] in ("input", "0", "1") and v[2]:
             v[2] = False
     if not ref.outputs(net):
         gates = [n for n, v in net["nodes"].items() if v[0] in ref.GATES]
         net["nodes"][gates[-1]][2] = True
+    if rng.random() < 0.2:
+        # a feed-through pin: a child input that is also marked as output (only instantiated with add_subcircuit,
+        # because a blackbox type cannot have one pin in both directions)
+        i = rng.choice(ref.inputs(net))
+        net["nodes"][i][2] = True
     # rename to short stable names so prefixed names are readable
     mp = {}
     i = 0
@@ -237,7 +245,10 @@ def gen(rng, tier):
         op = None
         invalid = rng.random() < 0.2
         if r < 0.3:   # add_blackbox
-            ci = rng.randrange(len(children))
+            plain = [i for i, ch in enumerate(children) if not (set(ref.inputs(ch)) & set(ref.outputs(ch)))]
+            if not plain:
+                continue
+            ci = rng.choice(plain)
             ins, outs = child_io(children[ci])
             inst = rng.choice(insts)
             if not invalid:
@@ -397,6 +408,8 @@ def run(case, ctx):
     bbts = []
     for i, ch in enumerate(children):
         ins, outs = child_io(ch)
+        if set(ins) & set(outs):
+            ctx.probe("feedthrough_child")
         bbts.append((cg.BlackBox(f"T{i}", ins, outs), [f"T{i}", ins, outs]))
     R = copy.deepcopy(parent)
     n_ok = 0
@@ -520,8 +533,6 @@ def shrink(case):
     for ci, ch in enumerate(case["children"]):
         for net in G.shrink_net(ch):
             if net is None or not ref.is_lint_clean(net) or ref.is_cyclic(net) or not ref.outputs(net) or not ref.inputs(net):
-                continue
-            if any(v[0] == "input" and v[2] for v in net["nodes"].values()):
                 continue
             ins, outs = child_io(net)
             ops2 = []
